@@ -62,6 +62,8 @@ func generate(w *mon.W) {
 			p = twinJoins(rng)
 		case 1:
 			p = summarizeThenNestedJoin(rng)
+		case 2:
+			p = distinctThenDuplicates(rng)
 		}
 		c := &pipecheck.Case{Pipe: p}
 		for k := 0; k < nInst; k++ {
@@ -106,6 +108,51 @@ func twinJoins(rng interface{ Intn(int) int }) *Pipe {
 	j2 := &Op{K: "join", Kind: kinds[rng.Intn(4)], Right: right(v[1]), Conds: cond()}
 	p.Ops = append(p.Ops, j1, j2)
 	if rng.Intn(2) == 0 {
+		p.Ops = append(p.Ops, &Op{K: "count"})
+	}
+	return p
+}
+
+// distinctThenDuplicates: a left prefix whose rows are first made distinct
+// (summarize, count) and then made alike again (a projection that drops the
+// grouping key, an extend that overwrites it), with row-preserving operators
+// in between, before a join of every kind.
+func distinctThenDuplicates(rng interface{ Intn(int) int }) *Pipe {
+	id := func(n string) *Ident { return &Ident{Name: n} }
+	p := &Pipe{Table: Ident{Name: "T"}}
+	keys := [][]Col{{{X: Name("k")}}, {{X: Name("k")}, {X: Name("j")}}, {{X: Name("K")}}, {{Name: id("g"), X: Bin("%", Name("id"), Num("3"))}}}[rng.Intn(4)]
+	p.Ops = append(p.Ops, &Op{K: "summarize", Cols: []Col{{Name: id("n"), X: Call("count")}, {Name: id("m"), X: Call("max", Name("ia"))}}, HasBy: true, By: keys})
+	for k := rng.Intn(3); k > 0; k-- {
+		switch rng.Intn(5) {
+		case 0:
+			p.Ops = append(p.Ops, &Op{K: "where", X: Bin(">=", Name("n"), Num("1"))})
+		case 1:
+			p.Ops = append(p.Ops, &Op{K: "extend", Cols: []Col{{Name: id("e"), X: Bin("+", Name("n"), Num("1"))}}})
+		case 2:
+			p.Ops = append(p.Ops, &Op{K: "sort", Terms: []SortTerm{{X: Name("n")}, {X: Name("m")}}})
+		case 3:
+			p.Ops = append(p.Ops, &Op{K: "take", X: Num("100")})
+		default:
+			p.Ops = append(p.Ops, &Op{K: "as", Name: Ident{Name: "Grouped"}})
+		}
+	}
+	switch rng.Intn(3) {
+	case 0:
+		p.Ops = append(p.Ops, &Op{K: "project", Cols: []Col{{Name: id("n")}}})
+	case 1:
+		p.Ops = append(p.Ops, &Op{K: "project", Cols: []Col{{Name: id("n")}, {Name: id("m2"), X: Bin(">", Name("m"), Num("0"))}}})
+	default:
+		p.Ops = append(p.Ops, &Op{K: "project", Cols: []Col{{Name: id("n"), X: Bin("%", Name("n"), Num("2"))}}})
+	}
+	kind := []string{"", "innerunique", "", "inner", "leftouter"}[rng.Intn(5)]
+	right := &Pipe{Table: Ident{Name: "U"}}
+	if rng.Intn(2) == 0 {
+		right.Ops = append(right.Ops, &Op{K: "project", Cols: []Col{{Name: id("uid")}, {Name: id("uk"), X: Name("k")}}})
+		p.Ops = append(p.Ops, &Op{K: "join", Kind: kind, Right: right, Conds: []*E{Bin("==", Name("$left", "n"), Name("$right", "uk"))}})
+	} else {
+		p.Ops = append(p.Ops, &Op{K: "join", Kind: kind, Right: right, Conds: []*E{Bin("==", Name("$left", "n"), Name("$right", "k"))}})
+	}
+	if rng.Intn(3) == 0 {
 		p.Ops = append(p.Ops, &Op{K: "count"})
 	}
 	return p
